@@ -1358,6 +1358,56 @@ def r12_walk_prunes_only_inside_channels(repo=None):
                                 "remove the sub-directories it has handled", line=x.lineno)
                 else:
                     raise AnalysisError("%s: modification `%s` of the walk list not recognised" % (q, site))
+            # the per-channel step receives the walk list: it hands back what is *not* a time-stamped sub-directory of the channel
+            # (`p[:] = others`, others filled with elements of p).  Emptying the list there hides every directory below the one
+            # examined - also when the step only decided that this directory is not a channel to be listed: the `metadata`
+            # channel nested in an RF channel is never reached
+            for c in ast.walk(lp):
+                if not (isinstance(c, ast.Call) and isinstance(c.func, ast.Name) and c.func.id in m.functions):
+                    continue
+                g_ = m.functions[c.func.id]
+                ps = [a.arg for a in g_.args.args]
+                pn = None
+                for i_, a_ in enumerate(c.args):
+                    if isinstance(a_, ast.Name) and a_.id == dv and i_ < len(ps):
+                        pn = ps[i_]
+                for k_ in c.keywords:
+                    if isinstance(k_.value, ast.Name) and k_.value.id == dv and k_.arg:
+                        pn = k_.arg
+                if pn is None:
+                    continue
+                for x in pyfront.walk_no_nested(g_):
+                    site = None
+                    empt = False
+                    if isinstance(x, ast.Delete) and any(isinstance(t, ast.Subscript) and isinstance(t.value, ast.Name) and t.value.id == pn for t in x.targets):
+                        site = norm(ast.unparse(x))[:60]
+                        empt = all(isinstance(t.slice, ast.Slice) and t.slice.lower is None and t.slice.upper is None for t in x.targets if isinstance(t, ast.Subscript))
+                        if not empt:
+                            raise AnalysisError("%s: `%s` removes part of the walk list: not decided" % (c.func.id, site))
+                    elif isinstance(x, ast.Call) and isinstance(x.func, ast.Attribute) and isinstance(x.func.value, ast.Name) and x.func.value.id == pn \
+                            and x.func.attr in ("clear", "remove", "pop"):
+                        site = norm(ast.unparse(x))[:60]
+                        empt = x.func.attr == "clear"
+                        if not empt:
+                            raise AnalysisError("%s: `%s` removes entries of the walk list one by one: not decided" % (c.func.id, site))
+                    elif isinstance(x, ast.Assign) and any(isinstance(t, ast.Subscript) and isinstance(t.value, ast.Name) and t.value.id == pn for t in x.targets):
+                        site = norm(ast.unparse(x))[:60]
+                        v = x.value
+                        empt = isinstance(v, (ast.List, ast.Tuple)) and not v.elts
+                        if not empt:
+                            keeps = isinstance(v, ast.Name) and any(
+                                isinstance(y, ast.Call) and isinstance(y.func, ast.Attribute) and y.func.attr == "append" and isinstance(y.func.value, ast.Name)
+                                and y.func.value.id == v.id for y in ast.walk(g_))
+                            if keeps:
+                                n += 1
+                                r.ok("%s:%s %s `%s`" % (m.rel, x.lineno, c.func.id, site), "hands back the entries the step collected as not being its time-stamped sub-directories")
+                            continue
+                    if site is None:
+                        continue
+                    n += 1
+                    r.violation(m.rel, c.func.id, site, "the per-channel step empties the walk list: nothing below the directory it examined is "
+                                "entered any more - a channel nested in it (the `metadata` channel of an RF channel, listed when only "
+                                "metadata is asked for) is missing from the listing", line=x.lineno)
     if n < 2:
         raise AnalysisError("list_drf: modifications of the os.walk directory list: %d found, 2 confirmed on the reference tree" % n)
     r.guard(2)
